@@ -605,14 +605,17 @@ func Explore(bound int, body func() string, check func(string) string, o Options
 		if err != nil {
 			return // an aborted execution has no reliable continuation points
 		}
+		// keep only the trace: the scheduler object references every thread closure of the execution
+		points, choices := s.Points, s.Choices
+		s = nil
 		c := 0
 		for j := 0; j < len(prefix); j++ {
-			if cs := s.Points[j].Costs; cs != nil {
-				c += cs[s.Choices[j]]
+			if cs := points[j].Costs; cs != nil {
+				c += cs[choices[j]]
 			}
 		}
-		for i := len(prefix); i < len(s.Points); i++ {
-			p := s.Points[i]
+		for i := len(prefix); i < len(points); i++ {
+			p := points[i]
 			for alt := 1; alt < p.Enabled; alt++ {
 				cc := c
 				if p.Costs != nil {
@@ -621,7 +624,7 @@ func Explore(bound int, body func() string, check func(string) string, o Options
 				if cc > bound {
 					continue
 				}
-				np := append(append(make([]int, 0, i+1), s.Choices[:i]...), alt)
+				np := append(append(make([]int, 0, i+1), choices[:i]...), alt)
 				rec(np, cc)
 			}
 			// choices[i] on the explored path is 0 beyond the prefix: cost of the default is 0
